@@ -369,6 +369,28 @@ def has_array_actual(e):
     return False
 
 
+def has_left_call(e):
+    """a binary operator whose left operand contains a call or get"""
+    if isinstance(e, tuple):
+        if e[0] == 'bin' and isinstance(e[2], tuple) and (has_call(e[2]) or has_get(e[2])):
+            return True
+        return any(has_left_call(x) for x in e[1:])
+    if isinstance(e, list):
+        return any(has_left_call(x) for x in e)
+    return False
+
+
+def has_get(e):
+    """a get system call somewhere in e"""
+    if isinstance(e, tuple):
+        if (e[0] == 'call' and e[1] == 'get') or (e[0] == 'sys' and e[1] == 2):
+            return True
+        return any(has_get(x) for x in e[1:])
+    if isinstance(e, list):
+        return any(has_get(x) for x in e)
+    return False
+
+
 FRAG_HELPERS = [
     {'kind': 'proc', 'name': 'h', 'formals': [('val', 'a'), ('val', 'b')], 'locals': [], 'body': ('assign', 'g0', ('bin', '+', ('var', 'a'), ('var', 'b')))},
     {'kind': 'proc', 'name': 'h0', 'formals': [], 'locals': [], 'body': ('skip',)},
@@ -473,6 +495,30 @@ def model_code(text):
     return out
 
 
+def frag_lcall(rng, depth, want='int'):
+    """an expression with a call (of a function with call-free actuals, or get) at the bottom of its LEFT spine and simple
+    right operands (a literal or a variable): xcmp computes the left operand first, as XSem does"""
+    def simple():
+        if rng.random() < 0.5:
+            return ('var', rng.choice(FRAG_VARS))
+        v = rng.choice(CONST_CHOICES)
+        return ('num', v)
+    e = rng.choice([('call', 'k', [frag_expr(rng, rng.randint(0, 1)), frag_expr(rng, rng.randint(0, 1))]), ('call', 'k0', []),
+                    ('call', 'ka', [frag_expr(rng, rng.randint(0, 1)), ('var', rng.choice(FRAG_ARRS)[0])]),
+                    ('call', 'get', [('num', 0)]), ('sys', 2, [('num', 0)])])
+    for _ in range(rng.randint(1, max(1, depth))):
+        if rng.random() < 0.55:
+            e = ('bin', rng.choice(['+', '-']), e, simple())
+        else:
+            r = simple() if rng.random() < 0.7 else ('num', 0)
+            e = ('bin', rng.choice(['=', '<', '~=', '>=', '=', '<']), e, r)
+            if rng.random() < 0.2:
+                e = ('not', e)
+    if want == 'bool' and not (e[0] == 'not' or (e[0] == 'bin' and e[1] in ('=', '<', '~=', '>='))):
+        e = ('bin', rng.choice(['=', '<', '~=']), e, simple())
+    return e
+
+
 def frag_stmt(rng, depth):
     """a statement of the proved fragment (never run: only the generated code is compared)"""
     r = rng.random()
@@ -498,7 +544,14 @@ def frag_stmt(rng, depth):
             c = rng.choice([('call', 'k', [frag_expr(rng, rng.randint(0, 2)), frag_expr(rng, rng.randint(0, 2), rng.choice(['int', 'bool']))]),
                             ('call', 'k0', []),
                             ('call', 'ka', [frag_expr(rng, rng.randint(0, 2)), ('var', rng.choice(FRAG_ARRS)[0])])])
+            if rng.random() < 0.4:
+                c = frag_lcall(rng, rng.randint(1, 3))
             return ('assign', rng.choice(FRAG_VARS), c) if rng.random() < 0.7 else ('return', c)
+        if r < 0.85:
+            # get as the whole right-hand side / the whole value of a return (the stream: mostly the console)
+            st = rng.choice([('num', 0), ('num', 0), ('num', 0), ('num', 255), frag_expr(rng, 1)])
+            c = rng.choice([('call', 'get', [st]), ('sys', 2, [st])])
+            return ('assign', rng.choice(FRAG_VARS), c) if rng.random() < 0.8 else ('return', c)
         if r < 0.87:
             return ('return', frag_expr(rng, rng.randint(0, 2), rng.choice(['int', 'bool'])))
         if r < 0.9:
@@ -509,9 +562,11 @@ def frag_stmt(rng, depth):
     if r < 0.6:
         t = frag_stmt(rng, depth - 1) if rng.random() < 0.8 else ('skip',)
         e = frag_stmt(rng, depth - 1) if rng.random() < 0.6 else ('skip',)
-        return ('if', frag_expr(rng, rng.randint(0, 2), 'bool'), t, e)
+        c = frag_lcall(rng, rng.randint(1, 2), 'bool') if rng.random() < 0.15 and (t != ('skip',) or e != ('skip',)) else frag_expr(rng, rng.randint(0, 2), 'bool')
+        return ('if', c, t, e)
     if r < 0.75:
-        return ('while', frag_expr(rng, rng.randint(0, 2), 'bool'), frag_stmt(rng, depth - 1))
+        c = frag_lcall(rng, rng.randint(1, 2), 'bool') if rng.random() < 0.2 else frag_expr(rng, rng.randint(0, 2), 'bool')
+        return ('while', c, frag_stmt(rng, depth - 1))
     return ('seq', [frag_stmt(rng, depth - 1) for _ in range(rng.randint(1, 4))])
 
 
@@ -523,7 +578,7 @@ def fragment_tie(ck, tools, scr, n):
     rng = ck.rng
     d = tempfile.mkdtemp(dir=scr)
     agree = outside = 0
-    narrf = narra = 0
+    narrf = narra = nget = nleft = 0
     sample = None
     for i in range(n):
         kind = rng.choice(['func', 'proc'])
@@ -536,7 +591,7 @@ def fragment_tie(ck, tools, scr, n):
         if nloc < 2:
             # l0 / l1 are then globals
             pass
-        glob = [('val', 'put', ('num', 1)), ('var', 'g0'), ('array', 'a0', ('num', 8)), ('var', 'g1'), ('array', 'a1', ('num', 3))] + [('var', 'l%d' % k) for k in range(nloc, 2)]
+        glob = [('val', 'put', ('num', 1)), ('val', 'get', ('num', 2)), ('var', 'g0'), ('array', 'a0', ('num', 8)), ('var', 'g1'), ('array', 'a1', ('num', 3))] + [('var', 'l%d' % k) for k in range(nloc, 2)]
         glob += [('var', 'p%d' % k) for k in range(nform, 2)]
         call = ('call', 'f', acts)
         prog = {'globals': glob,
@@ -600,10 +655,12 @@ def fragment_tie(ck, tools, scr, n):
             agree += 1
             narrf += any(f[0] == 'array' for f in forms)
             narra += has_array_actual(body)
+            nget += has_get(body)
+            nleft += has_left_call(body)
             if sample is None or len(src) < len(sample['x_source']):
                 sample = {'x_source': src.decode('latin-1'), 'model_and_xcmp': mo}
     ck.cov['fragment_model_tie'] = {'procedures': n, 'in_fragment_identical_code': agree, 'outside_fragment': outside,
-                                    'identical_with_array_formals': narrf, 'identical_with_array_actuals': narra}
+                                    'identical_with_array_formals': narrf, 'identical_with_array_actuals': narra, 'identical_with_get': nget, 'identical_with_call_or_get_as_left_operand': nleft}
     if sample:
         ck.sample(sample)
     shutil.rmtree(d, ignore_errors=True)
@@ -625,9 +682,9 @@ def proc_og(body, funcs=('k', 'k0', 'ka')):
         if not isinstance(e, tuple):
             return
         if e[0] == 'call' and isinstance(e[2], list):
-            og = max(og, len(e[2]) + (2 if e[1] in funcs or e[1] == 'put' else 1))
+            og = max(og, len(e[2]) + (2 if e[1] in funcs or e[1] in ('put', 'get') else 1))
         if e[0] == 'sys':
-            og = max(og, 3 if e[1] == 0 else 4)
+            og = max(og, 4 if e[1] == 1 else 3)
         for x in e[1:]:
             if isinstance(x, tuple):
                 ex(x)
@@ -651,7 +708,8 @@ def program_tie(ck, tools, scr, n):
     stats = {'programs': 0, 'programs_with_pool_constants': 0, 'byte_identical_to_xcmp': 0, 'differing': 0, 'model_none_opt': 0,
              'validated_image_ok': 0, 'validated_image_none': 0, 'isa_runs_compared': 0, 'lowered_and_optimised_image_show_the_same': 0,
              'byte_identical_with_array_formals': 0, 'byte_identical_with_array_actuals': 0,
-             'well_defined': 0, 'well_defined_lowered_image_shows_the_spec': 0, 'ill_defined': 0, 'ill_defined_images_differ': 0}
+             'well_defined': 0, 'well_defined_lowered_image_shows_the_spec': 0, 'ill_defined': 0, 'ill_defined_images_differ': 0,
+             'programs_reading_input': 0, 'well_defined_consuming_input': 0, 'byte_identical_with_call_or_get_as_left_operand': 0}
     reasons = {}
     for i in range(n):
         kind = rng.choice(['func', 'proc', 'proc'])
@@ -661,14 +719,15 @@ def program_tie(ck, tools, scr, n):
             body.append(('return', frag_expr(rng, rng.randint(0, 3), rng.choice(['int', 'int', 'bool']))))
         nloc = rng.choice([0, 1, 2, 2, 3])
         locs = [('var', 'l0'), ('var', 'l1'), ('var', 'l2')][:nloc]
-        glob = [('val', 'put', ('num', 1)), ('var', 'g0'), ('array', 'a0', ('num', 8)), ('var', 'g1'), ('array', 'a1', ('num', 3))] + [('var', 'l%d' % k) for k in range(nloc, 2)]
+        glob = [('val', 'put', ('num', 1)), ('val', 'get', ('num', 2)), ('var', 'g0'), ('array', 'a0', ('num', 8)), ('var', 'g1'), ('array', 'a1', ('num', 3))] + [('var', 'l%d' % k) for k in range(nloc, 2)]
         glob += [('var', 'p%d' % k) for k in range(nform, 2)]
         call = ('call', 'f', acts)
         procs = [{'kind': kind, 'name': 'f', 'formals': forms, 'locals': locs, 'body': ('seq', body)}] + FRAG_HELPERS + [
                  {'kind': 'proc', 'name': 'main', 'formals': [], 'locals': [],
                   'body': ('seq', [('assign', 'g0', ('num', 1)), ('assign', 'g1', ('num', 2)),
                                    ('assign', 'g1', call) if kind == 'func' else call,
-                                   ('sys', 1, [('bin', '+', ('var', 'g0'), ('num', 48)), ('num', 0)])])}]
+                                   ('sys', 1, [('bin', '+', ('var', 'g0'), ('num', 48)), ('num', 0)]),
+                                   ('assign', 'g1', ('call', 'get', [('num', 0)])), ('sys', 1, [('var', 'g1'), ('num', 0)])])}]
         prog = {'globals': glob, 'procs': procs}
         src = xcommon.to_x(prog)
         open(os.path.join(d, 'p.x'), 'wb').write(src)
@@ -713,6 +772,7 @@ def program_tie(ck, tools, scr, n):
             stats['byte_identical_to_xcmp'] += 1
             stats['byte_identical_with_array_formals'] += any(f[0] == 'array' for f in forms)
             stats['byte_identical_with_array_actuals'] += has_array_actual(body)
+            stats['byte_identical_with_call_or_get_as_left_operand'] += has_left_call(body)
         else:
             stats['differing'] += 1
             why = 'length %d vs %d' % (len(model), len(real)) if len(model) != len(real) else 'same length, words differ'
@@ -733,36 +793,42 @@ def program_tie(ck, tools, scr, n):
             import struct
             low = [int(x) for x in m0.split()]
             open(os.path.join(d, 'low.out'), 'wb').write(struct.pack('<I', len(low)) + b''.join(struct.pack('<I', w) for w in low))
-            ra, ea = xcommon.run_isa(tools.hv, os.path.join(d, 'a.out'), [[]], 200000)
-            rl, el = xcommon.run_isa(tools.hv, os.path.join(d, 'low.out'), [[]], 200000)
+            inputs = [[], [72, 105, 33, 10, 200, 0, 7]]
+            ra, ea = xcommon.run_isa(tools.hv, os.path.join(d, 'a.out'), inputs, 200000)
+            rl, el = xcommon.run_isa(tools.hv, os.path.join(d, 'low.out'), inputs, 200000)
             if ra is None or rl is None:
                 ck.broken.append('program tie: the ISA runner failed: %s %s' % (ea, el))
                 break
-            same = all(ra[0][k] == rl[0][k] for k in ('end', 'code', 'out', 'consumed'))
-            stats['isa_runs_compared'] += 1
-            if same:
-                stats['lowered_and_optimised_image_show_the_same'] += 1
-            # what XSem says: for a well-defined program both images must show exactly that (for the lowered image this is
-            # the statement of C01_program_partial); an ill-defined program (a subscript out of range stores anywhere, e.g. to
-            # a link word, and the two images have different code addresses) may differ between the images: counted only
-            spec, e = xcommon.run_xsem(tools.hv, os.path.join(d, 'p.sx'), [[]], STEPS, DEPTH)
+            # what XSem says: for a well-defined (program, input) both images must show exactly that (for the lowered image
+            # this is the statement of C01_program_partial, the consumed input included); an ill-defined program (a subscript
+            # out of range stores anywhere, e.g. to a link word, and the two images have different code addresses) may differ
+            # between the images: counted only
+            spec, e = xcommon.run_xsem(tools.hv, os.path.join(d, 'p.sx'), inputs, STEPS, DEPTH)
             if spec is None:
                 ck.broken.append('program tie: the XSem runner failed: %s' % e)
                 break
-            sp_ = spec[0]
-            if sp_['kind'] == 'behaviour':
-                stats['well_defined'] += 1
-                for nm, m in (('the validated lowered image of model_compile', rl[0]), ('the binary of xcmp', ra[0])):
-                    if m['end'] != 'exit' or m['code'] != sp_['exit'] or m['out'] != sp_['out'] or m['consumed'] != sp_['consumed']:
-                        ck.broken.append('%s does not show the behaviour XSem gives on %r: %r, spec %r' % (nm, src.decode('latin-1'), m, sp_))
-                    elif nm.startswith('the validated'):
-                        stats['well_defined_lowered_image_shows_the_spec'] += 1
-                if len(ck.broken) > 3:
-                    break
-            else:
-                stats['ill_defined'] += 1
-                if not same:
-                    stats['ill_defined_images_differ'] += 1
+            stats['programs_reading_input'] += has_get(body)
+            for q in range(len(inputs)):
+                same = all(ra[q][k] == rl[q][k] for k in ('end', 'code', 'out', 'consumed'))
+                stats['isa_runs_compared'] += 1
+                if same:
+                    stats['lowered_and_optimised_image_show_the_same'] += 1
+                sp_ = spec[q]
+                if sp_['kind'] == 'behaviour':
+                    stats['well_defined'] += 1
+                    if sp_['consumed'] > 0:
+                        stats['well_defined_consuming_input'] += 1
+                    for nm, m in (('the validated lowered image of model_compile', rl[q]), ('the binary of xcmp', ra[q])):
+                        if m['end'] != 'exit' or m['code'] != sp_['exit'] or m['out'] != sp_['out'] or m['consumed'] != sp_['consumed']:
+                            ck.broken.append('%s does not show the behaviour XSem gives on %r, input %r: %r, spec %r' % (nm, src.decode('latin-1'), inputs[q], m, sp_))
+                        elif nm.startswith('the validated'):
+                            stats['well_defined_lowered_image_shows_the_spec'] += 1
+                else:
+                    stats['ill_defined'] += 1
+                    if not same:
+                        stats['ill_defined_images_differ'] += 1
+            if len(ck.broken) > 3:
+                break
     CONST_CHOICES = saved
     ck.cov['program_model_tie'] = dict(stats, reasons_not_identical=reasons)
     shutil.rmtree(d, ignore_errors=True)
@@ -878,7 +944,8 @@ def main():
                       'order-open evaluation is excluded conservatively by footprints (XSem.v header); ill-defined programs are counted per reason and dropped',
                       'file streams (>= 256) are not generated; console only',
                       'proved part (Properties_C01.v): for expressions (literals, globals, locals, value formals, + - = < ~ and or, spills, subscripts a[e] of global arrays '
-                      'and of array formals with constant or computed index) and statements (skip stop return if while sequence assignment, assignment to an array element a[e1] := e2, exit put) '
+                      'and of array formals with constant or computed index) and statements (skip stop return if while sequence assignment, assignment to an array element a[e1] := e2, exit put, '
+                      'and get as the whole right-hand side of an assignment or value of a return: console input, 255 at the end of the input; the input consumed is part of the proved behaviour) '
                       'of the form the code generator reads (after XConstProp.front), '
                       'the code of the model cg/cs run on Isa.run shows the behaviour XSem gives (C01_expr_fragment_partial, C01_stmt_fragment_partial); '
                       'and for procedure-call statements, and function calls as the whole right-hand side of an assignment or the whole value of a return, '
@@ -897,7 +964,7 @@ def main():
                       'the three peephole rules are proved to preserve the effect of the block they rewrite (C01_peephole_rule1/2/3_partial) and to be all the pass applies (C01_peephole_rewrites); '
                       'global arrays are laid out by model_compile as xcmp does (cells at the top of memory, the name\'s data word holds their address) and, like array formals, are part of '
                       'the end-to-end theorem (the demo passes a global array to a recursive procedure through an array formal); '
-                      'NOT proved: calls inside operands and actuals, proc/func formals, string literals as array actuals, local arrays (XSem rejects them), shadowing of globals, get, strings, '
+                      'NOT proved: calls (and get) inside operands and actuals, proc/func formals, string literals as array actuals, local arrays (XSem rejects them), shadowing of globals, strings, input from file streams (Unsupported in XSem), '
                       'that XConstProp.front preserves behaviour for whole programs, and that the peephole pass does for whole images (the proved image is the lowered one) '
                       '-- decided per program by this check']
     if os.path.exists(os.path.join(vlib.COQ, 'Properties_%s.v' % PID)):
